@@ -290,6 +290,42 @@ def unrelated_decl_case(idx, payload):
     return res
 
 
+def typedef_victim_case(idx, payload):
+    """the removed entity is a TYPEDEF instantiation of a template that lives in another (nested) namespace, written before
+    that namespace, next to free functions and classes of the typedef's own namespace (pybind): ignoring the instantiated
+    class == deleting the typedef, and nothing else moves"""
+    seed, _ = payload
+    rng = random.Random(seed * 1000003 + idx + 919191)
+    outer, inner = rng.choice(["tools", "geo"]), rng.choice(["detail", "impl"])
+    arg = rng.choice(["double", "int"])
+    alias = rng.choice(["BoxD", "Holder1"])
+    funcs = rng.sample(["double measure(double x);", "void reset();", "int count(int a, int b = 2);"], rng.randint(1, 3))
+    cls = rng.choice(["", "class Report { Report(); void print() const; };"])
+    tmpl = "namespace %s { template<T> class Box { Box(); T get() const; void set(const T& t); }; }" % inner
+    td = "typedef %s::%s::Box<%s> %s;" % (outer, inner, arg, alias)
+    rest = [tmpl] + funcs + ([cls] if cls else [])
+    rng.shuffle(rest)
+    k = rest.index(tmpl)
+    pos = rng.randint(0, k)          # the typedef stands before the namespace of its template
+    mk = lambda with_td: "namespace %s {\n%s\n}\n" % (outer, "\n".join(rest[:pos] + ([td] if with_td else []) + rest[pos:]))   # noqa: E731
+    text, text_del = mk(True), mk(False)
+    cpp = "%s::%s::Box<%s>" % (outer, inner, arg)
+    res = dict(idx=idx, text=text, bad=None, kinds=["typedef_victim"])
+    full = impl_pybind(text, streams.TPL_MIN, "m", [''], False, [], None)
+    if full[0] != "ok":
+        res["kinds"] = []
+        return res
+    ign = impl_pybind(text, streams.TPL_MIN, "m", [''], False, [cpp], None)
+    dele = impl_pybind(text_del, streams.TPL_MIN, "m", [''], False, [], None)
+    d = dict(input=text, input_deleted=text_del)
+    if ign != dele:
+        dd = streams.first_diff(dele[1], ign[1]) if ign[0] == dele[0] == "ok" else dict(expected=str(dele)[:200], got=str(ign)[:200])
+        res["bad"] = dict(kind="spec", what="pybind: ignoring the typedef'd class %s is not equivalent to deleting the typedef" % cpp, ignore=[cpp], **dict(d, **dd))
+    else:
+        res["bad"] = others_unchanged(full, dele, ("err", ""), ("err", ""), "deleting the typedef %s" % alias, d)
+    return res
+
+
 def special_names_case(idx, payload):
     """classes whose members have names the generators treat specially (print, serialize, Python keywords) next to free
     functions and namespaces in every order and nesting: deleting ONE free function (or one namespace holding only free
@@ -432,6 +468,7 @@ def run(ctx, n, off=0, collect=True):
     results += list(fw.run_cases(same_ns_enum_case, [(ctx.seed + off, None)] * (n // 8)))
     results += list(fw.run_cases(unrelated_decl_case, [(ctx.seed + off, None)] * (n // 3)))
     results += list(fw.run_cases(special_names_case, [(ctx.seed + off, None)] * (n // 4)))
+    results += list(fw.run_cases(typedef_victim_case, [(ctx.seed + off, None)] * (n // 8)))
     for r in results:
         if "crash" in r:
             raise RuntimeError(r["crash"])
